@@ -11,6 +11,7 @@ package main
 // main: the layer is diff(target, base) - the evaluated TARGET document against the evaluated BASE document, in that
 // order - decorated by diffDoc with "$match: {}" so that it applies to the base document whatever else is in the stream.
 //@ func main() ()
+//@   propagates all   [C08] [C15]
 //@   property C15
 //@   at call diffDoc#1
 //@     assert (and (= dst@arg targetDoc) (= src@arg baseDoc))                                                  [C15]
